@@ -134,6 +134,33 @@ def replay_confusion(chk, h, rnd):
         chk.violation(f'confusion:function-api:{view}:{m}', f'[{counts} {label}] {m}(...) = {v}, definition gives {want[m]}', ctx)
 
 
+def replay_confusion_scaled(chk, h, factor):
+  """The binary view of one confusion matrix with every example repeated `factor` times."""
+  import numpy as np
+  from ml_metrics._src.aggregates import classification as agg
+  n = h['tp'] + h['fp'] + h['tn'] + h['fn']
+  if n == 0:
+    return
+  want = dict((nm, float(frac(v))) for nm, v in h['binary'])
+  want['matthews_correlation_coefficient'] = (h['mcc_num'] / math.sqrt(h['mcc_den2'])) if h['mcc_den2'] else 0.0
+  rows = [(1, 1)] * h['tp'] + [(0, 1)] * h['fp'] + [(0, 0)] * h['tn'] + [(1, 0)] * h['fn']
+  yt = np.tile(np.array([r[0] for r in rows]), factor)
+  yp = np.tile(np.array([r[1] for r in rows]), factor)
+  counts = f"tp={h['tp']} fp={h['fp']} tn={h['tn']} fn={h['fn']} x {factor}"
+  ctx = dict(kind='confusion-scaled', counts=dict(tp=h['tp'], fp=h['fp'], tn=h['tn'], fn=h['fn']), factor=factor)
+  try:
+    f = agg.ConfusionMatrixAggFn(metrics=list(want), pos_label=1, input_type='binary', average='binary')
+    st = f.update_state(f.update_state(f.create_state(), yt[:len(yt) // 2], yp[:len(yt) // 2]), yt[len(yt) // 2:], yp[len(yt) // 2:])
+    got = f.get_result(st)
+  except Exception as e:  # pylint: disable=broad-exception-caught
+    chk.violation(f'confusion:large-counts:exception:{type(e).__name__}', f'[{counts}] {e!r}', ctx)
+    return
+  bad = [(m, float(_scalar(got[m])), want[m]) for m in want if not close(_scalar(got[m]), want[m])]
+  if bad:
+    m, g, w = bad[0]
+    chk.violation(f'confusion:large-counts:{m}', f'[{counts}] {m} = {g}, definition gives {w} ({len(bad)} metrics differ)', ctx)
+
+
 # ---------------------------------------------------------------- retrieval
 def replay_rank(chk, h, rnd, max_k):
   import numpy as np
@@ -357,7 +384,7 @@ def body(chk):
   rnd = random.Random(chk.seed)
   # 1. confusion-matrix metrics
   consts = dict(MaxCount=3)
-  laws = ['RatesInRange', 'SignedInRange', 'Complements', 'F1Harmonic', 'ClassSymmetry', 'MccBounded']
+  laws = ['RatesInRange', 'SignedInRange', 'Complements', 'F1Harmonic', 'ClassSymmetry', 'ScaleInvariant', 'MccBounded']
   mc = tlc.run('algebra', 'ConfusionRates', tlc.cfg_text(constants=consts, invariants=laws, deadlock=False), timeout=1800)
   chk.add_tlc(mc, 'ConfusionRates/MC')
   if not mc.ok:
@@ -370,6 +397,11 @@ def body(chk):
     replay_confusion(chk, h, rnd)
     chk.replayed()
   chk.count('confusion_matrices', len(hs))
+  # ScaleInvariant on the code: the same examples repeated until the counts are large (products of four counts leave
+  # the 64-bit integers long before the counts themselves do)
+  for h in (hs if thorough else hs[:25]):
+    replay_confusion_scaled(chk, h, 60000)
+    chk.replayed()
   # 2. retrieval metrics
   max_k = 4
   rc = dict(Vocab={1, 2, 3, 4}, MaxK=max_k, MaxExamples=1)
